@@ -327,12 +327,17 @@ inductive MEv
   | backendTimeout (tok : Nat)
   /-- the frontend timer fired -/
   | frontTimeout
+  /-- the frontend socket took everything that was pending, on every stream -/
+  | frontFlushAll
   deriving Repr
 
 /-- a stream that keeps the session open when the front timer fires (`should_close = false`
     or `should_write`) -/
 def keepsOpen (cfg : Cfg) (s : Stream) : Bool :=
-  step cfg s (.timeoutFront false) != s || delivering s || (s.st == .unlinked && s.pending)
+  -- the pass writes an answer / terminates the stream (it then leaves its live state) ...
+  (step cfg s (.timeoutFront false)).st != s.st
+  -- ... or something is still on its way to the client
+  || delivering s || (s.st == .unlinked && s.pending)
 
 def Mux.step (cfg : Cfg) (m : Mux) : MEv → Mux
   | .at i e => { streams := m.streams.modify i (fun s => Answers.step cfg s e) }
@@ -345,6 +350,12 @@ def Mux.step (cfg : Cfg) (m : Mux) : MEv → Mux
   | .frontTimeout =>
     let may := !(m.streams.any (keepsOpen cfg))
     { streams := m.streams.map fun s => Answers.step cfg s (.timeoutFront may) }
+  | .frontFlushAll => { streams := m.streams.map fun s => Answers.step cfg s .frontFlush }
+
+def Mux.run (cfg : Cfg) (m : Mux) (evs : List MEv) : Mux := evs.foldl (Mux.step cfg) m
+
+/-- a session with `n` fresh stream slots -/
+def Mux.init (n : Nat) : Mux := { streams := List.replicate n Stream.init }
 
 /-! ### what an HTTP/1 client sees (used by the black-box correspondence) -/
 
